@@ -546,6 +546,7 @@ def run_grid(ctx, cfg, case, label="gen"):
             ptols = [phys_tol(lo, hi) for lo, hi in dims]
             for name, rows in zip(("phys_lower", "phys_upper", "phys_centre"), phys):
                 cmp_floats(f"grid.{name}", rows, ans[name], ptols)
+    float_physical_grid(ctx, case, req, ans, result, res_priors, upper_exc)
     # exact layer: the cells the theorems are about, against the floats of the implementation
     if cells_ok and "rat_cells" in ans and len(ans["rat_cells"]) == total:
         bad = None
@@ -756,6 +757,138 @@ def grid_oracle(ctx, cfg, case, n, d, model, places, grid_ids, dims, calls, resu
 
 
 # ---------------------------------------------------------------------------------------------
+# float-level physical limits (model growth): Prior.value_for as property C02 models it, bit for bit
+
+
+_UNIT_PRIOR = []
+
+
+def quantile_trip(u):
+    """q = ndtr(ndtri(u)) as the real code performs it: for UniformPrior(0, 1) message.value_for(u) = q * 1 + 0"""
+    if not _UNIT_PRIOR:
+        _UNIT_PRIOR.append(af.UniformPrior(lower_limit=0.0, upper_limit=1.0))
+    return float(_UNIT_PRIOR[0].message.value_for(float(u)))
+
+
+def trip_table(ctx, case, units):
+    """[[u, q]] for the given unit values (hex); the libm part of value_for, measured, within 4 * 2**-52 of u"""
+    table = []
+    for h in sorted(set(units)):
+        u = h2f(h)
+        try:
+            q = quantile_trip(u)
+        except Exception as e:  # noqa
+            ctx.hit("phys:quantile-trip-raised:" + type(e).__name__)
+            continue
+        if not abs(q - u) <= 4 * 2.0 ** -52:  # measured: <= 2**-52 for every k/n, (k+1/2)/n with n <= 4000
+            ctx.disagree("C16.phys.quantile_trip", case, {"u": u, "q": q}, "ndtr(ndtri(u)) within 4 * 2**-52 of u")
+        table.append([h, f2h(q)])
+    return table
+
+
+def _is_limit_exc(e):
+    return type(e).__name__ == "PriorLimitException"
+
+
+def fphys_tol(lo, hi) -> Fraction:
+    """a float-equivalent rewrite of value_for (other rounding mode / no rounding, other operation order, exact
+    quantile round trip) stays within: one unit of the decimal place value_for rounds to + the measured round-trip
+    error times the width + a few ulp of the larger limit. (1000 times tighter than `phys_tol`, which it replaces
+    wherever the float-level model has a value.)"""
+    w = float(hi) - float(lo)
+    places = 14
+    while w < 1.0 and places < 323:
+        w *= 10.0
+        places += 1
+    return Fraction(1, 10 ** places) + (F(hi) - F(lo)) * Fraction(4, 2 ** 52) + grid_tol(lo, hi)
+
+
+def _same_or_close(impl, model_value, tols):
+    """'bit-exact' | 'within-rounding' | None for rows of per-dimension hex floats"""
+    if impl == model_value:
+        return "bit-exact"
+    if isinstance(impl, list) and isinstance(model_value, list) and len(impl) == len(model_value) and all(
+            len(a) == len(b) and all(abs(F(h2f(x)) - F(h2f(y))) <= tols[i] for i, (x, y) in enumerate(zip(a, b)))
+            for a, b in zip(impl, model_value)):
+        return "within-rounding"
+    return None
+
+
+def float_physical_grid(ctx, case, req, ans, result, res_priors, upper_exc):
+    """GridSearchResult.physical_{lower_limits,upper_limits,centres}_lists against the float-level model
+    (gate, exact rounding, clamp of UniformPrior.value_for on the measured quantile round trip): identical bits"""
+    if upper_exc is not None or any(type(p).__name__ != "UniformPrior" for p in res_priors):
+        return
+    keys = (("lower", "lower_limits_lists", "unit"), ("upper", "upper_limits_lists", "upper_unit"),
+            ("centre", "centres_lists", "centre_unit"))
+    try:
+        for _, attr, mk in keys:
+            if [[f2h(float(v)) for v in row] for row in getattr(result, attr)] != ans[mk]:
+                ctx.hit("phys:grid-skipped-unit-lists-differ-within-rounding")
+                return
+    except Exception:  # noqa
+        return
+    table = trip_table(ctx, case, [h for _, _, mk in keys for row in ans[mk] for h in row])
+    tols = [fphys_tol(float(p.lower_limit), float(p.upper_limit)) for p in res_priors]
+    req2 = dict(req, trip=table, rat=False)
+    req2.pop("places", None)
+    ans2 = ctx.lean.ask(req2)
+    if "driver_error" in ans2 or "fphys_lower" not in ans2:
+        ctx.disagree("C16.driver", case, None, _short(ans2))
+        return
+    for name, _, _ in keys:
+        model_rows = ans2["fphys_" + name]
+        model_value = "limit" if any(v == "limit" for row in model_rows for v in row) else model_rows
+        attr = {"lower": "physical_lower_limits_lists", "upper": "physical_upper_limits_lists",
+                "centre": "physical_centres_lists"}[name]
+        try:
+            impl = [[f2h(float(v)) for v in row] for row in getattr(result, attr)]
+        except Exception as e:  # noqa
+            impl = "limit" if _is_limit_exc(e) else "raised " + type(e).__name__
+        how = _same_or_close(impl, model_value, tols)
+        if how is not None:
+            ctx.hit(f"phys:grid-{how}" if impl != "limit" else "phys:grid-limit-exception-predicted")
+        else:
+            ctx.disagree(f"C16.grid.fphys_{name}", case, _short(impl), _short(model_value))
+
+
+def float_physical_sens(ctx, case, req, ans, entries, d, raised=None):
+    """Sensitivity: value of every perturbation and limits of every cell prior (value_for of the clamped unit
+    limits, then with_limits) against the float-level model: identical bits; `raised` = the exception of run()"""
+    table = trip_table(ctx, case, [h for row in ans["cells"] for c in row for h in c[:3]])
+    ans2 = ctx.lean.ask(dict(req, trip=table, rat=False))
+    if "driver_error" in ans2 or "fphys_cells" not in ans2:
+        ctx.disagree("C16.driver", case, None, _short(ans2))
+        return
+    cells = ans2["fphys_cells"]
+    model_raises = any(c[0] == "limit" or c[1] is None for row in cells for c in row)
+    if raised is not None:
+        if _is_limit_exc(raised) and model_raises:
+            ctx.hit("phys:sens-limit-exception-predicted")
+        else:
+            ctx.disagree("C16.sens.fphys_raises", case, "raised " + type(raised).__name__,
+                         "limit" if model_raises else "model has values")
+        return
+    if model_raises:
+        ctx.disagree("C16.sens.fphys_raises", case, "ran", "limit")
+        return
+    if len(cells) != len(entries):
+        return  # count clause reports it
+    tols = [fphys_tol(h2f(lo), h2f(hi)) for lo, hi in req["dims"]]
+    worst = "bit-exact"
+    for k, (rec, centre, lims) in enumerate(entries):
+        impl = [[f2h(centre[i]), f2h(lims[i][0]), f2h(lims[i][1])] for i in range(d)]
+        how = _same_or_close(list(zip(*impl)), list(zip(*[[c[0], c[1][0], c[1][1]] for c in cells[k]])), tols) \
+            if len(cells[k]) == d else None
+        if how is None:
+            ctx.disagree("C16.sens.fphys_cells", case, {"entry": k, "impl": _short(impl)}, _short(cells[k]))
+            return
+        if how != "bit-exact":
+            worst = how
+    ctx.hit("phys:sens-" + worst)
+
+
+# ---------------------------------------------------------------------------------------------
 # sensitivity mapping
 
 SIM = []
@@ -815,6 +948,12 @@ def run_sens(ctx, cfg, case, label="gen"):
     try:
         result = sens.run()
     except Exception as e:
+        # the float-level model predicts the limit exception (value_for of a unit limit outside the prior's limits)
+        req0 = {"p": "C16", "q": "sens", "cfg": cfg, "steps": per_dim, "dims": [[f2h(lo), f2h(hi)] for lo, hi in dims],
+                "scale": f2h(float(scale)), "arrivals": [], "names_id": names_id, "names_attr": names_attr}
+        ans0 = ctx.lean.ask(req0)
+        if "driver_error" not in ans0:
+            float_physical_sens(ctx, case, req0, ans0, [], d, raised=e)
         end = unit_end_defect(by_id)
         if end is not None and type(e).__name__ == "PriorLimitException":
             ctx.fail("C16-prior-unit-end-outside-limits", f"Sensitivity.run raised {type(e).__name__}: "
@@ -888,6 +1027,7 @@ def run_sens(ctx, cfg, case, label="gen"):
                 break
         if bad:
             ctx.disagree("C16.sens.cells", case, bad[:5], bad[5])
+        float_physical_sens(ctx, case, req, ans, entries, d)
         # job number of the fit behind each entry (the s-th performed job has number arrivals[s])
         cmp("sens.order", [arrivals[int(rec["seq"])] for rec, _, _ in entries], ans["order"])
     # results.csv
